@@ -126,6 +126,10 @@ def generate_mesh(vertices, edges, cells, ne=4, **kwargs):
 
 def eid_from_vertex(earr, vbel):
     # ret = []
+    # two interfaces can share both end vertices (a cell squeezed between two others): prefer the exact vertex list
+    for j in range(0, len(earr)):
+        if list(earr[j]) == list(vbel) or list(earr[j]) == list(vbel)[::-1]:
+            return j
     for j in range(0, len(earr)):
         if len(list(set(earr[j]) & set(vbel))) >= 2:
             return j
